@@ -89,8 +89,8 @@ pub fn decrypt_with_password(password: &str, data: &str) -> Result<String, JsErr
     let password = hex::decode(password).map_err(|e| JsError::from_str(&e.to_string()))?;
     let data = hex::decode(data).map_err(|e| JsError::from_str(&e.to_string()))?;
 
-    if data.len() <= METADATA_SIZE {
-        // not enough input to decrypt.
+    if data.len() < METADATA_SIZE {
+        // not enough input to decrypt (an empty plaintext encrypts to exactly the metadata).
         return Err(JsError::from_str("Missing input data"));
     }
 
